@@ -21,4 +21,6 @@ func registerAll() {
 	core.Register("C03", execC03)
 	core.Register("C16", execC16)
 	core.Register("C19", execC19)
+	core.Register("C17", execC17)
+	core.Register("C12", execC12)
 }
